@@ -472,7 +472,7 @@ def case_reject_degree(log, mode, n):
             raise EngineError("symbolic degree went through the block construction")
         except ValueError:
             rejected = True
-        except _Reached:
+        except (_Reached, TypeError):  # arithmetic on the symbolic degree: the sanity checks are behind us
             rejected = False
         bad = z3.Or(deg.e < 1, deg.e >= n)
         log.twin("degree range")  # (before the concrete constructions below add their non-zero denominators to the context)
